@@ -12,8 +12,11 @@ class CorruptDataError(PDFException):
 
 
 class LZWDecoder:
-    def __init__(self, fp: BinaryIO) -> None:
+    def __init__(self, fp: BinaryIO, early_change: int = 1) -> None:
         self.fp = fp
+        # PDF 32000-1 Table 8, EarlyChange: 1 (default) means the code length
+        # increases one code early, 0 means as late as possible.
+        self.early_change = 1 if early_change else 0
         self.buff = 0
         self.bpos = 8
         self.nbits = 9
@@ -71,7 +74,7 @@ class LZWDecoder:
                 x = cast(bytes, self.table[code])
             else:
                 raise CorruptDataError
-            table_length = len(self.table)
+            table_length = len(self.table) + self.early_change - 1
             if table_length == 511:
                 self.nbits = 10
             elif table_length == 1023:
@@ -103,7 +106,7 @@ class LZWDecoder:
             )
 
 
-def lzwdecode(data: bytes) -> bytes:
+def lzwdecode(data: bytes, early_change: int = 1) -> bytes:
     fp = BytesIO(data)
-    s = LZWDecoder(fp).run()
+    s = LZWDecoder(fp, early_change).run()
     return b"".join(s)
